@@ -29,6 +29,9 @@ def aggregate(prop, tier, seed, tasks, results, plan):
     p["tasks"] += 1
     p["states"] += int(r.get("states", 0))
     p["transitions"] += int(r.get("transitions", 0))
+    for kk, vv in r.items():
+      if kk.startswith("worst_"):
+        cov[kk] = max(cov.get(kk, 0.0), float(vv))
     for c in r.get("caps", []):
       cov["caps_hit"].append({"task": t.get("name"), "cap": c})
     if len(cov["samples"]) < 6:
